@@ -695,10 +695,14 @@ func coalesce(c *enumx.Ctx, msgs []*auparse.AuditMessage) (*aucoalesce.Event, er
 		}
 	}
 	s1 := evSnap(e1, err1)
-	e2, err2 := aucoalesce.CoalesceMessages(msgs)
-	if s2 := evSnap(e2, err2); s2 != s1 {
-		c.Report("C15 recoalesce-differs", fmt.Sprintf("coalescing the same messages twice gives\n  %s\nthen\n  %s\ngroup: %q", s1, s2, lines), nil)
-		good = false
+	// several repetitions: an answer that depends on something unordered inside one call (map iteration) differs between
+	// calls only now and then
+	for rep := 0; rep < 6 && good; rep++ {
+		e2, err2 := aucoalesce.CoalesceMessages(msgs)
+		if s2 := evSnap(e2, err2); s2 != s1 {
+			c.Report("C15 recoalesce-differs", fmt.Sprintf("coalescing the same messages again (repetition %d) gives\n  %s\nthe first time it gave\n  %s\ngroup: %q", rep+2, s2, s1, lines), nil)
+			good = false
+		}
 	}
 	var fresh []*auparse.AuditMessage
 	handMade := false
@@ -721,6 +725,126 @@ func coalesce(c *enumx.Ctx, msgs []*auparse.AuditMessage) (*aucoalesce.Event, er
 		c.Nontrivial()
 	}
 	return e1, err1
+}
+
+// (k) outcomes and shared keys across the records of one event: every known record type as the auxiliary record of a
+// SYSCALL event (first and second), carrying res= in each spelling, against a SYSCALL that succeeded / failed - two
+// outcomes in one event are both kept; pairs of auxiliary records of DIFFERENT types that share a key (absent from the
+// SYSCALL record) with different values; EXECVE records whose arguments the kernel wrote in pieces (aN_len= aN[0]= ...).
+func c09Outcomes(c *enumx.Ctx) {
+	var known []string
+	for typ := 1000; typ < 3000; typ++ {
+		if n := auparse.AuditMessageType(typ).String(); !strings.HasPrefix(n, "UNKNOWN") {
+			switch typ {
+			case 1300, 1320, 1309, 1306, 1327, 1326, 1302:
+			default:
+				known = append(known, n)
+			}
+		}
+	}
+	run := func(desc string, rs []recDesc) {
+		c.Begin(func() string { return desc })
+		c.Try(tryProp(), func() {
+			msgs, ok := parseAll(c, rs)
+			if !ok {
+				return
+			}
+			ev, err := coalesce(c, msgs)
+			if oracleC15 {
+				return
+			}
+			if err != nil || ev == nil {
+				c.Report("C09 coalesce-error", fmt.Sprintf("%s: (%v, %v)", desc, ev, err), nil)
+				return
+			}
+			a := identity(c, "C09", msgs[0], ev, desc)
+			b := containment(c, "C09", rs, ev, desc)
+			if a && b {
+				c.Nontrivial()
+			}
+		})
+	}
+	sysWith := func(t *tagger, nr int, success string) recDesc {
+		sc := syscallRec(t, nr, "")
+		if success == "no" {
+			sc.Body = strings.Replace(sc.Body, "success=yes exit=0", "success=no exit=-13", 1)
+		}
+		return sc
+	}
+	for ti, name := range known {
+		if !c.Mine() {
+			continue
+		}
+		for _, res := range []string{"0", "1", "success", "failed", "yes", "no"} {
+			for _, success := range []string{"yes", "no"} {
+				for _, key := range []string{"res", "result", "success"} {
+					if key != "res" && ti%8 != 0 {
+						continue
+					}
+					for _, first := range []bool{true, false} {
+						t := &tagger{numeric: ti%2 == 1}
+						sc := sysWith(t, 44 /*sendto*/, success)
+						aux := recDesc{name, fmt.Sprintf("op=%s xa=%s %s=%s", t.v(), t.v(), key, res)}
+						rs := []recDesc{sc, aux}
+						if first {
+							rs = []recDesc{aux, sc}
+						}
+						run(fmt.Sprintf("SYSCALL(success=%s) with a %s record carrying %s=%s (aux first: %v)", success, name, key, res, first), rs)
+					}
+				}
+			}
+		}
+	}
+	generic := []string{"IPC", "MQ_OPEN", "MQ_SENDRECV", "MQ_NOTIFY", "CAPSET", "MMAP", "NETFILTER_PKT", "OBJ_PID", "FD_PAIR", "KERN_MODULE", "BPF", "FANOTIFY", "TIME_INJOFFSET", "CONFIG_CHANGE", "INTEGRITY_RULE", "ANOM_LINK", "BPRM_FCAPS", "CWD", "USER_CMD", "TTY"}
+	for i, a := range generic {
+		for j, b := range generic {
+			if i == j || !c.Mine() {
+				continue
+			}
+			for _, key := range []string{"mode", "xk", "res", "op", "name", "perm"} {
+				for _, pos := range []int{0, 1, 2} {
+					t := &tagger{numeric: (i+j)%2 == 1}
+					sc := sysWith(t, 2, "yes")
+					ra := recDesc{a, fmt.Sprintf("ka=%s %s=%s", t.v(), key, t.v())}
+					rb := recDesc{b, fmt.Sprintf("kb=%s %s=%s", t.v(), key, t.v())}
+					rs := []recDesc{ra, rb}
+					rs = append(rs[:pos], append([]recDesc{sc}, rs[pos:]...)...)
+					run(fmt.Sprintf("SYSCALL at %d with %s and %s records both carrying %s= (different values)", pos, a, b, key), rs)
+				}
+			}
+		}
+	}
+	// pieced EXECVE arguments
+	for argc := 1; argc <= 3; argc++ {
+		for pieced := 0; pieced < argc; pieced++ {
+			for _, np := range []int{1, 2, 3} {
+				if !c.Mine() {
+					continue
+				}
+				t := &tagger{}
+				sc := sysWith(t, 59, "yes")
+				b := fmt.Sprintf("argc=%d", argc)
+				for i := 0; i < argc; i++ {
+					if i != pieced {
+						b += fmt.Sprintf(" a%d=\"%s\"", i, t.v())
+						continue
+					}
+					b += fmt.Sprintf(" a%d_len=%d", i, 8*np)
+					for k := 0; k < np; k++ {
+						b += fmt.Sprintf(" a%d[%d]=%s", i, k, strings.ToUpper(hex.EncodeToString([]byte(fmt.Sprintf("p%dq%dzz", i, k)))))
+					}
+				}
+				for _, first := range []bool{false, true} {
+					rs := []recDesc{sc, {"EXECVE", b}, {"CWD", "cwd=\"/" + t.v() + "\""}}
+					if first {
+						rs = []recDesc{rs[1], rs[0], rs[2]}
+					}
+					run(fmt.Sprintf("SYSCALL(execve) + EXECVE argc=%d with a%d in %d pieces (EXECVE first: %v)", argc, pieced, np, first), rs)
+				}
+			}
+		}
+	}
+	c.Sample("CONFIG_CHANGE op=add_rule res=0 + SYSCALL(sendto) success=yes => both outcomes are in the event")
 }
 
 // (h) a SYSCALL record that LACKS one of its usual fields while another record of the event carries a field of
@@ -899,8 +1023,9 @@ func c09Times(c *enumx.Ctx) {
 
 func init() {
 	gens["c09-times"] = c09Times
+	gens["c09-outcomes"] = c09Outcomes
 	gens["c09-missing"] = c09Missing
-	for _, g := range []string{"c09-times", "c09-missing", "c09-modes", "c09-groups", "c09-singles", "c09-repeats", "c09-names", "c09-syscalls"} {
+	for _, g := range []string{"c09-times", "c09-missing", "c09-modes", "c09-groups", "c09-singles", "c09-repeats", "c09-names", "c09-syscalls", "c09-outcomes"} {
 		g := g
 		gens["c15:"+g] = func(c *enumx.Ctx) {
 			oracleC15 = true
